@@ -212,17 +212,55 @@ class ExprMixin:
             return Val(T.STR, ops.int_to_str(lift(v)))
         raise Unsupported(f"str() of {v.ty}", node)
 
+    def splice(self, node, st, as_tuple):
+        """(*a, x, *b) / [*a, x, *b]: starred python-level sequences are spliced at python level; with a symbolic sequence among
+        them the display is the concatenation (a TupleOf / List value)"""
+        parts = []  # ("one", Val) | ("seq", Val)
+        for e in node.elts:
+            if isinstance(e, ast.Starred):
+                v = self.deopt(self.eval(e.value, st), st, node)
+                parts.append(("seq", v))
+            else:
+                parts.append(("one", self.eval(e, st)))
+        if all(k == "one" or (v.is_py and isinstance(v.py, (list, tuple))) for k, v in parts):
+            out = []
+            for k, v in parts:
+                if k == "one":
+                    out.append(v)
+                else:
+                    out.extend(x if isinstance(x, Val) else Val.const(x) for x in v.py)
+            if all(is_const(i) for i in out):
+                return Val.const((tuple if as_tuple else list)(i.py for i in out))
+            return Val(PYOBJ, None, (tuple if as_tuple else list)(out), True)
+        et = next((v.ty.elem for k, v in parts if k == "seq" and isinstance(v.ty, T.List) and not v.is_py), None)
+        if et is None:
+            raise Unsupported("starred element of this type in a display", node)
+        seq_t = T.TupleOf(et) if as_tuple else T.List(et)
+        terms = []
+        for k, v in parts:
+            if k == "one":
+                terms.append(z3.Unit(lift(v, et)))
+            elif isinstance(v.ty, T.List) and not v.is_py:
+                if v.ty.elem != et:
+                    raise Unsupported("starred sequences of different element types", node)
+                terms.append(lift(v))
+            else:
+                terms.append(lift(v, seq_t))
+        return Val(seq_t, terms[0] if len(terms) == 1 else z3.Concat(*terms))
+
     def e_Tuple(self, node, st):
+        if any(isinstance(e, ast.Starred) for e in node.elts):
+            return self.splice(node, st, True)
         items = [self.eval(e, st) for e in node.elts]
         if all(is_const(i) for i in items):
             return Val.const(tuple(i.py for i in items))
         return Val(PYOBJ, None, tuple(items), True)
 
     def e_List(self, node, st):
+        if any(isinstance(e, ast.Starred) for e in node.elts):
+            return self.splice(node, st, False)
         items = []
         for e in node.elts:
-            if isinstance(e, ast.Starred):
-                raise Unsupported("starred list element", node)
             items.append(self.eval(e, st))
         if all(is_const(i) for i in items):
             return Val.const([i.py for i in items])
